@@ -296,8 +296,14 @@ static void print_tree(int numseq)
 {
         char buf[4000];
         int o = 0, i;
-        for(i = 0; i < tree_tasks && o < 3900; i++){
-                o += snprintf(buf + o, sizeof buf - (size_t)o, "(%d,%d->%d)", tree_abc[i][0], tree_abc[i][1], tree_abc[i][2]);
+        int lo = numseq, j;
+        /* ascending node label = children before parents */
+        for(j = 0; j < tree_tasks && o < 3900; j++, lo++){
+                for(i = 0; i < tree_tasks; i++){
+                        if(tree_abc[i][2] == lo){
+                                o += snprintf(buf + o, sizeof buf - (size_t)o, "(%d,%d->%d)", tree_abc[i][0], tree_abc[i][1], tree_abc[i][2]);
+                        }
+                }
         }
         emit("I tree numseq=%d tasks=%d %s", numseq, tree_tasks, tree_tasks <= 12 ? buf : "(large)");
 }
@@ -609,7 +615,7 @@ int main(int argc, char** argv)
                         if(pid == 0){
                                 int b;
                                 dup2(errfd, 2);
-                                for(b = 0; b <= ex.bound; b++){
+                                for(b = arg_int(argc, argv, "--onlybound", 0) ? ex.bound : 0; b <= ex.bound; b++){
                                         struct ex_state e2 = ex;
                                         double t0 = ex_now();
                                         e2.bound = b;
